@@ -27,6 +27,10 @@ def f64_bits(x):
 
 
 def parse_float(tok):
+    # std::f64::consts used by the crate (exact binary64 values of the std constants)
+    STD = {"LN_2": 0.6931471805599453, "std::f64::consts::LN_2": 0.6931471805599453, "f64::consts::LN_2": 0.6931471805599453}
+    if tok.strip() in STD:
+        return STD[tok.strip()]
     tok = tok.replace("_", "")
     tok = re.sub(r"f64$", "", tok)
     try:
